@@ -1,5 +1,5 @@
 """Shared helpers: hex-float encoding, running the C++ harness and the Lean driver on a command file."""
-import os, struct, subprocess, sys, math
+import shutil, os, struct, subprocess, sys, math
 
 HERE = os.path.dirname(os.path.abspath(__file__))
 VERIF = os.path.dirname(HERE)
@@ -74,7 +74,6 @@ def schema(variant="plain"):
     bdir = os.path.dirname(h)
     sdir = os.path.join(bdir, "schema") + "/"
     os.makedirs(sdir, exist_ok=True)
-    mini = os.path.join(sdir, "min.wb")
     ver = None
     for line in open(os.path.join(bdir, "include", "world_builder", "config.h")):
         if "const std::string MAJOR" in line:
@@ -82,10 +81,19 @@ def schema(variant="plain"):
         if "const std::string MINOR" in line:
             minor = line.split('"')[1]
     ver = major + "." + minor
-    open(mini, "w").write('{"version":"%s","features":[]}\n' % ver)
-    rc, out, err = run_lines([h], ["schema %s %s" % (sdir, mini)])
-    if rc != 0 or out[:1] != ["ok"]:
-        raise RuntimeError("schema dump failed: %r %r" % (out, err[-2000:]))
+    final = os.path.join(sdir, "world_builder_declarations.schema.json")
+    # several checks may run at once on one build directory: dump into a private directory and move the file into place atomically (a reader never sees a half-written file);
+    # an existing dump that is newer than the harness binary is reused
+    if not (os.path.exists(final) and os.path.getmtime(final) >= os.path.getmtime(h)):
+        tdir = os.path.join(bdir, "schema.tmp%d" % os.getpid()) + "/"
+        os.makedirs(tdir, exist_ok=True)
+        mini = os.path.join(tdir, "min.wb")
+        open(mini, "w").write('{"version":"%s","features":[]}\n' % ver)
+        rc, out, err = run_lines([h], ["schema %s %s" % (tdir, mini)])
+        if rc != 0 or out[:1] != ["ok"]:
+            raise RuntimeError("schema dump failed: %r %r" % (out, err[-2000:]))
+        os.replace(os.path.join(tdir, "world_builder_declarations.schema.json"), final)
+        shutil.rmtree(tdir, ignore_errors=True)
     _schema[variant] = (os.path.join(sdir, "world_builder_declarations.schema.json"), ver)
     return _schema[variant]
 
